@@ -16,6 +16,13 @@ acquisition must be a no-op (capacity unchanged) and is generated once per holde
 issued from inside a grant callback (release at once, acquire again) are part of the history and
 the model performs them at the same point; transient states inside callbacks are not judged except
 holders <= limit.  `waiting` / `locked` / `tokens` are read only for the pruning hash.
+
+"f fails" includes failing synchronously with a BaseException that is not an Exception (run kind "bexc":
+asyncio.CancelledError, GeneratorExit, a harness BaseException subclass; never SystemExit /
+KeyboardInterrupt, so nothing can take the harness down).  The statement makes no exception for them:
+run() must still release exactly once, hand the capacity to the next pending request, and report the very
+failure to its caller; the exception must not come out of run() / release() / callback() of the harness
+(that would be an ("error", ...) event).  Verified on the unchanged tree before the rule was added.
 """
 from vf.engines import explore
 
@@ -24,12 +31,14 @@ ENGINE = "E1-explore"
 TECHNIQUE = "runtime monitoring: capacity-counter + FIFO reference model compared event-by-event after every step"
 RULE = ("E1: all histories over {acquire (hold | release inside the grant callback | acquire again inside the "
         "grant callback), release by holder h, cancel acquisition a (pending, or granted once), run(f succeeds | "
-        "f raises | f returns an unfired Deferred | a fired Deferred whose chain waits on a pending one | a fired-and-"
+        "f raises | f raises a BaseException that is not an Exception | f returns an unfired Deferred | a fired Deferred whose chain waits on a pending one | a fired-and-"
         "paused Deferred), fire f's Deferred ok/fail, cancel a run Deferred (pending or "
         "waiting on f's Deferred)} for DeferredLock and DeferredSemaphore(1..3) to depth 10 (quick) / 11 (thorough) "
         "with at most 4 (quick) / 5 (thorough) live requests, pruned by hashing (model state, real waiting length, locked/tokens); plus "
         "random histories of 2000 steps with up to 8 live requests, and biased grow/churn/drain histories of 1500 steps "
-        "with up to 40 live requests (pending queues of 10..40, limits up to 8, cancellations anywhere in the queue).  A case is one history (primitive, action "
+        "with up to 40 live requests (pending queues of 10..40, limits up to 8, cancellations anywhere in the queue); all random "
+        "histories draw from every run kind, and a third exhaustive pass (depth 7 / 8) uses {ok, non-Exception raise, unfired "
+        "Deferred} so that such a failure occurs as first holder, queued behind holders and with requests queued behind it.  A case is one history (primitive, action "
         "list); non-trivial = at least two actions.")
 ASSUMPTIONS = ["trusted base: the 50-line reference model in this module",
                "release() is observed by subclassing the primitive and overriding the public release()",
@@ -40,7 +49,9 @@ FLOORS = {"step_comparisons": 5000, "grants": 2000, "queued_then_granted": 300, 
           "cancel_of_granted": 100, "run_releases": 500, "run_cancel_reached_function_deferred": 50,
           "reentrant_ops": 200, "no_wait_checks": 5000, "steps_with_more_than_5_pending": 3000,
           "grants_out_of_a_queue_longer_than_5": 500, "cancellations_deep_in_a_long_queue": 300,
-          "run_functions_returning_fired_but_unfinished_deferred": 2000}
+          "run_functions_returning_fired_but_unfinished_deferred": 2000,
+          "run_functions_raising_non_exception_baseexception": 2000,
+          "non_exception_failures_with_a_request_pending_behind": 500}
 READY = True
 
 CONFIGS = [("lock", 1), ("sem", 1), ("sem", 2), ("sem", 3)]
@@ -69,8 +80,17 @@ class Boom(Exception):
     pass
 
 
+class HarnessBaseException(BaseException):
+    """Not an Exception; harmless if it ever escaped (the harness catches BaseException around every call)."""
+
+
+def _non_exceptions():
+    import asyncio
+    return (asyncio.CancelledError, GeneratorExit, HarnessBaseException)
+
+
 class World:
-    def __init__(self, ctx, prim, limit, cap=4, run_kinds=("ok", "raise", "dfr", "chn", "psd")):
+    def __init__(self, ctx, prim, limit, cap=4, run_kinds=("ok", "raise", "bexc", "dfr", "chn", "psd")):
         self.run_kinds = run_kinds
         c = _classes()
         self.defer = c["defer"]
@@ -133,7 +153,7 @@ class World:
             else:
                 self.mlog.append(("release-by-run",))
                 self.m_release()
-                self.mlog.append(("done", x[1], "ok" if kind == "ok" else "boom"))
+                self.mlog.append(("done", x[1], {"ok": "ok", "raise": "boom", "bexc": "bboom"}[kind]))
 
     def m_release(self):
         if self.m_queue:
@@ -245,6 +265,11 @@ class World:
                 return ("value", r)
             if kind == "raise":
                 raise Boom(r)
+            if kind == "bexc":
+                self.ctx.count("run_functions_raising_non_exception_baseexception")
+                exc = _non_exceptions()[r % 3]
+                self.ctx.seen("non_exception_types_raised", exc.__name__)
+                raise exc("b", r)
             if kind == "psd":
                 # fired-and-paused: `called` is true, but the result is only available after unpause()
                 self.ctx.count("run_functions_returning_fired_but_unfinished_deferred")
@@ -275,7 +300,9 @@ class World:
 
         def failed(f):
             self.r_pending.discard(("r", r))
-            if f.check(self.defer.CancelledError):
+            if f.type is _non_exceptions()[r % 3] and f.value.args == ("b", r):
+                self.log.append(("done", r, "bboom"))
+            elif f.check(self.defer.CancelledError):
                 self.log.append(("done", r, "CANCELLED"))
             elif f.check(Boom) and f.value.args == (r,):
                 self.log.append(("done", r, "boom"))
@@ -378,6 +405,8 @@ class World:
                     ctx.count("queued_then_granted")
                     if len(queued_before) > 5:
                         ctx.count("grants_out_of_a_queue_longer_than_5")
+            elif e[0] == "done" and e[2] == "bboom" and queued_before and queued_before != [("r", e[1])]:
+                ctx.count("non_exception_failures_with_a_request_pending_behind")
         self.ptr = len(self.log)
         # model-independent: a pending request implies no free capacity
         ctx.count("no_wait_checks")
@@ -427,10 +456,12 @@ def classify(action, exp, got, queued_before):
 
 def run(ctx):
     depth = 10 if ctx.quick else 11
-    # two exhaustive passes: the full depth with f returning an un-fired Deferred, and 4 levels less with f returning
-    # a fired-but-unfinished Deferred (chained on a pending one / paused) instead
+    # three exhaustive passes: the full depth with f returning an un-fired Deferred, and 4 levels less with f returning
+    # a fired-but-unfinished Deferred (chained on a pending one / paused) instead, and 3 levels less with f raising a
+    # BaseException that is not an Exception instead of an Exception
     for ci, (prim, limit, kinds, depth) in enumerate([c + (("ok", "raise", "dfr"), depth) for c in CONFIGS] +
-                                                     [c + (("ok", "chn", "psd"), depth - 4) for c in CONFIGS]):
+                                                     [c + (("ok", "chn", "psd"), depth - 4) for c in CONFIGS] +
+                                                     [c + (("ok", "bexc", "dfr"), depth - 3) for c in CONFIGS]):
         def mk(prim=prim, limit=limit, kinds=kinds):
             return World(ctx, prim, limit, cap=4 if ctx.quick else 5, run_kinds=kinds)
 
